@@ -524,6 +524,7 @@ class AutoSerialize:
         for name, val in group.attrs.items():
             if (
                 name == "_autoserialize"
+                or name in ("_autoserialize_skip_names", "_autoserialize_skip_types")
                 or name.endswith(".torch_save")
                 or name.endswith(".is_path")
             ):
